@@ -507,8 +507,11 @@ func (db *RockDB) hDeleteAll(ts int64, hkey []byte, hlen int64, wb engine.WriteB
 	sk := hEncodeSizeKey(hkey)
 	wb.Delete(sk)
 	db.topLargeCollKeys.Update(hkey, int(0))
-	if db.cfg.ExpirationPolicy == common.WaitCompact && tableIndexes == nil {
-		// for compact ttl , we can just delete the meta
+	if db.cfg.ExpirationPolicy == common.WaitCompact && tableIndexes == nil && keyInfo.OldHeader.ValueVersion < ts {
+		// for compact ttl , we can just delete the meta: the generation number (the timestamp of the
+		// entry that created the hash) is never used again. Not so when it is not below ts: a hash
+		// re-created by an entry with this same timestamp would get this generation number and
+		// show the cleared fields again, so its fields are removed physically below
 		return nil
 	}
 	start := keyInfo.RangeStart
